@@ -2,6 +2,7 @@
 A tree of manager nodes is built from an IR; the builder records, for every node, the object that was
 created and what was registered where.  Pure stdlib + stackscope, Python 3.9 syntax.
 """
+import functools
 import sys
 import types
 import warnings
@@ -73,6 +74,11 @@ def exit_fn(*a):
 
 async def aexit_fn(*a):
     return False
+
+
+class CallableObj:
+    def __call__(self, *a, **k):
+        return None
 
 
 def cb_fn(*a, **k):
@@ -217,8 +223,30 @@ class Builder:
             st.push(p.exitish)
             r.regs.append((kind, p))
         elif kind == "callback":
-            st.callback(cb_fn, 1, x=2)
-            r.regs.append((kind, cb_fn))
+            # the registered callable comes in every shape a program registers: plain function, partial, bound method of a
+            # builtin object (no Python-level module), callable instance, lambda, function that has lost its module
+            self.ncb = getattr(self, "ncb", 0) + 1
+            v = self.ncb % 6
+            if v == 1:
+                st.callback(cb_fn, 1, x=2)
+                cb = cb_fn
+            elif v == 2:
+                cb = functools.partial(cb_fn, 0)
+                st.callback(cb, 1)
+            elif v == 3:
+                cb = [1, 2].clear
+                st.callback(cb)
+            elif v == 4:
+                cb = CallableObj()
+                st.callback(cb, 5)
+            elif v == 5:
+                cb = lambda *a: None      # noqa: E731
+                st.callback(cb, 6)
+            else:
+                cb = types.FunctionType(cb_fn.__code__, {}, "orphan")
+                cb.__module__ = None
+                st.callback(cb, 7)
+            r.regs.append((kind, cb))
         else:
             raise AssertionError(kind)
 
